@@ -309,6 +309,11 @@ def run(tier):
         nn = 2 if j % 3 else 3
         insts.append(dict(id=6000 + j, seed=int(rng.integers(0, 2 ** 31 - 1)), n=nn, m=nn + int(rng.integers(0, 3)), prob=["lin", "nl"][j % 2], bounds="both", bscale=1.5,
                           x0place=[str(rng.choice(["L", "in", "L"])) for _ in range(nn)], npt="2n+1", growing=1, maxfun=40, rhoend=1e-3, scaling=bool(j % 4 == 0)))
+    # under-determined problems (m < n: the library switches its growing defaults on the first run) with every kind of restart actually happening
+    for j in range(24 if tier == "quick" else 240):
+        nn = 3 + j % 2
+        insts.append(dict(id=7000 + j, seed=int(rng.integers(0, 2 ** 31 - 1)), n=nn, m=int(rng.integers(1, nn)), prob=["nl", "lin"][j % 2], restarts=["hard", "hardnew", "soft"][j % 3],
+                          maxunsucc=3, noise_sd=1e-2, rhoend=1e-3, maxfun=int(rng.integers(120, 260)), bounds=["none", "both"][(j // 6) % 2]))
     tcov, _ = sc.trace_part("C07", insts, V, os.path.join(wd, "traces"))
     # a hang observed in a whole-solver corpus (liveness of the real code) is also a C07 matter: covered by the trace checks' `terminates` clause
     cov = dict(states=r["distinct"] + mcov["states"], transitions=r["generated"] + mcov["transitions"], model_runs=mcov["model_runs"],
